@@ -16,7 +16,8 @@ MenuBasic == <<
     [kind |-> "ok", len |-> 0, rows |-> <<>>],
     [kind |-> "ok", len |-> 1, rows |-> (1 :> <<16>>)],
     [kind |-> "ok", len |-> 2, rows |-> (1 :> <<32, 8>> @@ 2 :> <<8, 32>>)],
-    [kind |-> "ok", len |-> 3, rows |-> (2 :> <<16, 0, 24>>)] >>
+    [kind |-> "ok", len |-> 3, rows |-> (2 :> <<16, 0, 24>>)],
+    [kind |-> "ok", len |-> 0, rows |-> (1 :> <<>>)] >>      \* names a station but covers no period: changes nothing
 
 MenuReject == MenuBasic \o <<
     [kind |-> "unknown", len |-> 1, rows |-> (1 :> <<8>>)],
@@ -26,7 +27,8 @@ MenuLong == <<
     [kind |-> "ok", len |-> 0, rows |-> <<>>],
     [kind |-> "ok", len |-> 1, rows |-> (1 :> <<32>> @@ 2 :> <<32>>)],
     [kind |-> "ok", len |-> 4, rows |-> (1 :> <<8, 16, 24, 32>>)],
-    [kind |-> "ok", len |-> 5, rows |-> (1 :> <<32, 32, 0, 8, 8>> @@ 2 :> <<8, 8, 8, 32, 32>>)] >>
+    [kind |-> "ok", len |-> 5, rows |-> (1 :> <<32, 32, 0, 8, 8>> @@ 2 :> <<8, 8, 8, 32, 32>>)],
+    [kind |-> "ok", len |-> 0, rows |-> (2 :> <<>> @@ 1 :> <<>>)] >>
 
 MenuC04 == MenuLong \o <<
     [kind |-> "ok", len |-> 2, rows |-> (2 :> <<24, 24>>)],
